@@ -296,7 +296,7 @@ Qed.
 Lemma run_from_inv ops : forall s0,
   inv s0 ->
   (forall ty d, In (SetRemote ty d) ops -> rdesc_ok d) ->
-  (forall s out s', In (s, CreateOffer, out, s') (trace_from s0 ops) -> numbering_ok s) ->
+  (forall s out s', In (s, CreateOffer, out, s') (trace_from s0 ops) -> offer_nowrap s = true) ->
   inv (run_from s0 ops).
 Proof.
   induction ops as [|o rest IH]; intros s0 H0 Hrd Hnum; [exact H0|].
@@ -311,7 +311,7 @@ Proof.
 Qed.
 
 Lemma c07_history_lemma ops d :
-  remote_ok ops -> numbering_ok_all ops ->
+  remote_ok ops -> nowrap_all ops ->
   sig (run ops) = Stable ->
   rdesc_ok d -> offer_usable d -> kinds_compatible (trs (run ops)) d ->
   codecs_ok (fst (set_remote (run ops) TOffer d)) ->
